@@ -1377,3 +1377,20 @@ def unused_cli_parameters(ctx):
             if p not in used:
                 out.append((fn, p))
     return examined, out
+
+
+def validators_changing_value(ctx, classes):
+    """pydantic field validators (not root validators) of `classes` with a return whose value is not the validator's own value parameter:
+    the stored field then differs from what was configured / persisted.  -> (examined, [(fn, return node)])"""
+    examined, out = 0, []
+    for fn in ctx.ix.functions.values():
+        if fn.cls is None or fn.cls.name not in classes:
+            continue
+        if not any(d and d.split(".")[-1] == "validator" for d in fn.decorators):
+            continue
+        examined += 1
+        vp = fn.params[1] if len(fn.params) > 1 else None
+        for n in iter_own(fn.node):
+            if isinstance(n, ast.Return) and n.value is not None and not (isinstance(n.value, ast.Name) and n.value.id == vp):
+                out.append((fn, n))
+    return examined, out
